@@ -33,7 +33,8 @@ EXPECTED_PROBES = ["returned", "empty_input_partition", "more_partitions_than_ro
                    "independence_compared", "missing_rows_present",
                    "packed_after_cached_bounds_and_mask",
                    "input_range_partitioned_along_curve_unsorted_inside",
-                   "polygon_ring_outside_first_ring"]
+                   "polygon_ring_outside_first_ring",
+                   "packed_again_after_in_place_column_assignment"]
 
 
 def cases(tier, base_seed):
@@ -65,7 +66,8 @@ def cases(tier, base_seed):
         case = {"seed": seed, "frame": frame, "parts": parts(), "parts2": parts(), "pre": pre,
                 "npartitions": rng.choice((1, 2, 3, 4, 5, 8, 11, 16)),
                 "p": rng.choice((1, 2, 3, 5, 8, 10, 15, 20)),
-                "sim": e1.gen_sim_cfg(rng), "loose_rings": bool(loose)}
+                "sim": e1.gen_sim_cfg(rng), "loose_rings": bool(loose),
+                "again": rng.random() < 0.25}
         if rng.random() < 0.15:
             # input that is already range-partitioned along the curve (every distance in one
             # input partition below every distance in the next) but unsorted inside the
@@ -215,6 +217,33 @@ def run_case(case):
                         if a != b:
                             bad = ("partitioning-dependent", "packing the same frame from two input "
                                    f"partitionings gave different (distance,row) sets: {a[:3]} vs {b[:3]}")
+                if bad is None and case.get("again") and "v" in spec["extra"]:
+                    # the SAME collection object, edited in place (an ordinary column added),
+                    # packed a second time with the same p: the result holds the frame as it
+                    # is now
+                    try:
+                        ddf0["w"] = ddf0["v"] + 1
+                        again = ddf0.pack_partitions(npartitions=case["npartitions"], p=case["p"])
+                        whole = again.compute()
+                    except HarnessError:
+                        raise
+                    except Exception:  # noqa: BLE001 - raising claims nothing
+                        whole = None
+                    if whole is not None:
+                        probes["packed_again_after_in_place_column_assignment"] = 1
+                        spec3 = dict(spec, extra=dict(spec["extra"],
+                                                      w=[v + 1 for v in spec["extra"]["v"]]),
+                                     order=list(spec["order"]) + ["w"])
+                        if "w" not in whole.columns:
+                            bad = ("columns@packed-again", "the collection got a column 'w' in "
+                                   "place before it was packed again; the packed frame has "
+                                   f"columns {list(whole.columns)}")
+                            sig["again"] = True
+                        b2 = e2.check_packed([whole], spec3, case["p"], 1,
+                                             what="second pack_partitions of the edited collection")
+                        if bad is None and b2 is not None and b2[0] != "partition-count":
+                            bad = (b2[0] + "@packed-again", b2[1])
+                            sig["again"] = True
     except HarnessError:
         raise
     st = {"events": sim.n_events, "switches": sim.switches, "sim_time": sim.now,
@@ -246,6 +275,10 @@ def shrink_candidates(case):
     if c.get("pre"):
         d = copy.deepcopy(c)
         d["pre"] = None
+        yield d
+    if c.get("again"):
+        d = copy.deepcopy(c)
+        d["again"] = False
         yield d
     for key in ("parts", "parts2"):
         if c[key] != {"mode": "even", "k": 1}:
